@@ -1,7 +1,7 @@
 (* C06 — a crash during any write leaves every entity in its old or new state. Property theorems only. *)
 From Coq Require Import List Arith NArith Bool.
 Import ListNotations.
-From GB Require Import Reach Sort Read Good Snoc Ext Decimal ClockFile.
+From GB Require Import Reach Sort Read Good Snoc Ext Decimal ClockFile ClockDir Rebuild RebuildProps.
 
 (* for every write path made of object writes followed by one ref update, and every crash point k:
    each entity reads exactly as before, or (only the entity being written) exactly as after the complete path *)
@@ -30,3 +30,47 @@ Theorem C06_inplace_refuted :
   (exists s v, In s (crash_states PInPlace (print_u64 13) (print_u64 14)) /\ load s = Some v /\ (v < 13)%N).
 Proof. exact (conj inplace_unsafe_empty inplace_unsafe_regress). Qed.
 Print Assumptions C06_inplace_refuted.
+
+(* the files around the clock: with the temporary file outside the clocks directory, in every crash state of one
+   clock write (before each file operation, inside the write of the temporary file, after the rename) the
+   directory AllClocks lists holds exactly the clock, which loads to a value that is not older *)
+Theorem C06_clock_dir_safe in_dir tmp clock o n s :
+  in_dir tmp = false -> in_dir clock = true -> (o <= n)%N -> (n < 2 ^ 64)%N ->
+  In s (fs_crashes [(clock, print_u64 o)] (write_aside tmp clock (print_u64 n))) ->
+  exists c v, listing in_dir s = [(clock, c)] /\ load c = Some v /\ (o <= v)%N.
+Proof. exact (aside_outside_safe in_dir tmp clock o n s). Qed.
+Print Assumptions C06_clock_dir_safe.
+
+(* with the temporary file inside that directory a crash leaves an entry that is not a clock *)
+Theorem C06_tmp_in_clock_dir_refuted : exists in_dir tmp clock s,
+  in_dir tmp = true /\ in_dir clock = true /\
+  In s (fs_crashes [(clock, print_u64 13)] (write_aside tmp clock (print_u64 14))) /\
+  In (tmp, []) (listing in_dir s) /\ load [] = None.
+Proof. exact aside_inside_unsafe. Qed.
+Print Assumptions C06_tmp_in_clock_dir_refuted.
+
+(* the clock rebuild of an open, as atomic disk mutations (drop the broken clocks, set the marker, create and
+   witness, clear the marker): whatever the instant at which an open dies - and however many opens die in a row -
+   the next complete open ends with every clock at or above every stored time, for every order of the witnesses *)
+Theorem C06_rebuild_restartable d ws k : in_range d ws -> safe d ws ->
+  let d' := run d (firstn k (open_actions d ws)) in dominated (run d' (open_actions d' ws)) ws.
+Proof. exact (rebuild_restartable d ws k). Qed.
+Print Assumptions C06_rebuild_restartable.
+
+Theorem C06_rebuild_restartable_many ks d ws : in_range d ws -> safe d ws ->
+  dominated (run (crashes d ws ks) (open_actions (crashes d ws ks) ws)) ws.
+Proof. exact (rebuild_restartable_many ks d ws). Qed.
+Print Assumptions C06_rebuild_restartable_many.
+
+(* every crash state of an open is again safe: the rebuild is still owed, or the clocks already dominate *)
+Theorem C06_rebuild_crash_states_safe d ws k : in_range d ws -> safe d ws -> safe (run d (firstn k (open_actions d ws))) ws.
+Proof. exact (open_crash_safe d ws k). Qed.
+Print Assumptions C06_rebuild_crash_states_safe.
+
+(* the pinned open (a rebuild only when a clock is missing or broken): an open that dies after the first
+   entity's witnesses leaves clocks that all exist, the next open does nothing, a clock stays below a stored time *)
+Theorem C06_rebuild_pinned_refuted : exists d ws k,
+  need_p d = true /\ in_range d ws /\
+  let d' := run d (firstn k (open_actions_p d ws)) in ~ dominated (run d' (open_actions_p d' ws)) ws.
+Proof. exact rebuild_pinned_refuted. Qed.
+Print Assumptions C06_rebuild_pinned_refuted.
